@@ -41,6 +41,10 @@ def gen_cases(tier, seed):
         cfg = workloads.gen_cfg(rng, pspec, pool='none')
         if cfg['n_batch'] <= 3:
             cfg.update(f_live=0.2, n_eff=100, n_live=30, n_networks=min(cfg['n_networks'], 1))
+        if i % 6 == 4:
+            cfg.update(n_update=1, n_live=int(rng.choice([10, 12, 15])), n_batch=int(rng.choice([1, 2])), f_live=1e-3,
+                       n_networks=0, n_eff=int(rng.choice([30, 60])), n_shell=1, n_like_new_bound=None, enlarge_per_dim=2.0,
+                       n_points_min=None, filepath=True, discard_exploration=bool(i % 4 == 0), periodic=None)
         if i % 4 == 3:
             cfg['filepath'] = True
             cases.append({'i': i, 'seed': seed, 'kind': 'paths', 'prob': pspec, 'cfg': cfg, 'hist': []})
@@ -95,6 +99,7 @@ class SnapshotMonitor:
                         resumes_after_exploration=0, empty_discarded_views=0, bounds_frozen_max=0)
         self.driver = None
         self.was_explored = False
+        self.end_lens = None
         self.frozen = None           # list of bound digests at the end of exploration
         self.prefix = None           # per shell: (n, digest points[:n], digest log_l[:n], digest blobs[:n])
         self.seen = {}               # (flag, state digest) -> stats digest
@@ -114,6 +119,14 @@ class SnapshotMonitor:
         if not self.was_explored:
             self.was_explored = True
             self.frozen = [bound_geometry_digest(b) for b in s.bounds]
+            # where exploration ended, observed independently of the sampler's own markers
+            self.end_lens = np.array([len(p) for p in s.points])
+            if len(s.shell_end_exp) != len(s.points) or not np.array_equal(np.asarray(s.shell_end_exp), self.end_lens):
+                self.bad('phase.exploration-end-markers-wrong', 'at the end of exploration the shells hold %r samples but '
+                         'shell_end_exp = %r' % (self.end_lens.tolist(), np.asarray(s.shell_end_exp).tolist()), s, where)
+            if len(s.shell_n_sample_exp) != len(s.points):
+                self.bad('phase.exploration-end-markers-wrong', '%d exploration proposal counts for %d shells'
+                         % (len(s.shell_n_sample_exp), len(s.points)), s, where)
             self.obs['bounds_frozen_max'] = len(self.frozen)
             self.prefix = None
         if len(s.bounds) != len(self.frozen) or len(s.points) != len(self.frozen):
@@ -151,7 +164,9 @@ class SnapshotMonitor:
             return
         flag = bool(s._discard_exploration)
         if flag:
-            want = np.array([len(s.points[i]) - int(s.shell_end_exp[i]) for i in range(len(s.points))])
+            ends = self.end_lens if self.end_lens is not None and len(self.end_lens) == len(s.points) else \
+                np.asarray(s.shell_end_exp)
+            want = np.array([len(s.points[i]) - int(ends[i]) for i in range(len(s.points))])
             if not np.array_equal(np.asarray(s.shell_n), want):
                 self.bad('view.discard-not-post-exploration-rows', 'with discard on, shell_n = %r but rows after '
                          'shell_end_exp = %r' % (np.asarray(s.shell_n).tolist(), want.tolist()), s, where)
@@ -159,7 +174,7 @@ class SnapshotMonitor:
                 self.obs['empty_discarded_views'] += 1
             else:
                 out = s.posterior()
-                ll = np.concatenate([s.log_l[i][int(s.shell_end_exp[i]):] for i in range(len(s.points))])
+                ll = np.concatenate([s.log_l[i][int(ends[i]):] for i in range(len(s.points))])
                 if not np.array_equal(out[2], ll):
                     self.bad('view.discard-not-post-exploration-rows', 'posterior() under discard is not exactly the rows '
                              'drawn after exploration ended', s, where)
@@ -177,6 +192,10 @@ class SnapshotMonitor:
                          'statistics/posterior than before the toggles' % flag, s, where)
         else:
             self.seen[key] = st
+
+    def on_before_write(self, s, kind):
+        if s.explored and not self.was_explored:      # the full write at the end of exploration
+            self.snap(s, 'at the end-of-exploration checkpoint')
 
     def on_after_add_bound(self, s, result):
         if self.was_explored:
